@@ -64,7 +64,7 @@ def tasks(tier):
                 ts.append(("buffer", w, inv, pdir, bdir, False))
                 ts.append(("buffer", w, inv, pdir, bdir, True))
     ts += [("expr", k) for k in range(len(EXPRS))]
-    ts += [("io-use",)]
+    ts += [("io-use",), ("domains",)]
     for kind in ("single", "diff"):
         for w in range(1, W + 1):
             for inv in range(1 << w):
@@ -457,6 +457,69 @@ def _buf_ports(buf, bdir):
     return ports
 
 
+def check_domains():
+    """FFBuffer / DDRBuffer constructor contract for the domains: each direction's registers are in the domain named for
+    it, "sync" when not named (independently of the other direction), a domain named for a direction the buffer does not
+    have is refused -- and the elaborated FFBuffer really clocks the registers of each direction from that domain (the
+    registers of the output direction change at an edge of o_domain only, those of the input direction at i_domain only)."""
+    from amaranth.lib import io
+    from amaranth.hdl import Module, ClockDomain
+    obs = []
+
+    def ob(nm, ok, fi):
+        obs.append({"name": f"domains::{nm}", "kind": "post", "status": "proved" if ok else "refuted", "backend": "closed", "time_s": 0.0,
+                    **({} if ok else {"failing_input": fi})})
+    for cls in (io.FFBuffer, io.DDRBuffer):
+        for bdir in ("i", "o", "io"):
+            for idom in (None, "a"):
+                for odom in (None, "b"):
+                    port = io.SimulationPort("io", 2)
+                    has_i, has_o = bdir != "o", bdir != "i"
+                    legal = (idom is None or has_i) and (odom is None or has_o)
+                    try:
+                        buf = cls(bdir, port, i_domain=idom, o_domain=odom)
+                        got = (buf.i_domain, buf.o_domain)
+                    except ValueError:
+                        got = "ValueError"
+                    want = ((idom or "sync") if has_i else None, (odom or "sync") if has_o else None) if legal else "ValueError"
+                    ob(f"{cls.__name__}({bdir},i_domain={idom},o_domain={odom})", got == want,
+                       {"call": f"{cls.__name__}({bdir!r}, port, i_domain={idom!r}, o_domain={odom!r})", "(i_domain, o_domain)": got, "expected": want})
+    # the elaborated FFBuffer: which clock moves which register
+    for idom, odom in ((None, None), ("a", None), (None, "b"), ("a", "b")):
+        port = io.SimulationPort("io", 2, name="pad")
+        buf = io.FFBuffer("io", port, i_domain=idom, o_domain=odom)
+        m = Module()
+        doms = {}
+        for dn in {idom or "sync", odom or "sync"}:
+            doms[dn] = ClockDomain(dn)
+            m.domains += doms[dn]
+        m.submodules.buf = buf
+        d = Design(m)
+        d.register(buf.i, buf.o, buf.oe, port.i, port.o, port.oe)
+        import random
+        rnd = random.Random(3)
+        okk = True
+        detail = None
+        for _ in range(6):
+            d.randomize(rnd)
+            for cd in doms.values():
+                d.set(cd.clk, 0)
+                if cd.rst is not None:
+                    d.set(cd.rst, 0)
+            d.settle()
+            for edge_dom, cd in doms.items():
+                before = (int(d.val(port.o)), int(d.val(port.oe)), int(d.val(buf.i)))
+                d.apply([(cd.clk, 1)])
+                after = (int(d.val(port.o)), int(d.val(port.oe)), int(d.val(buf.i)))
+                d.apply([(cd.clk, 0)])
+                if edge_dom != (odom or "sync") and (after[0], after[1]) != (before[0], before[1]):
+                    okk, detail = False, {"edge of": edge_dom, "port.o/oe before": before[:2], "after": after[:2], "o_domain": odom or "sync"}
+                if edge_dom != (idom or "sync") and after[2] != before[2]:
+                    okk, detail = False, {"edge of": edge_dom, "i before": before[2], "after": after[2], "i_domain": idom or "sync"}
+        ob(f"FFBuffer(io,i_domain={idom},o_domain={odom})::registers-clocked-by-their-own-domain", okk, detail)
+    return {"task": "domains", "paths": 0, "solver_s": 0.0, "obligations": obs}
+
+
 def run_task(task):
     k = task[0]
     if k == "algebra":
@@ -470,6 +533,8 @@ def run_task(task):
         return runner.merge_results(f"expr[{desc}]", parts)
     if k == "io-use":
         return check_io_use()
+    if k == "domains":
+        return check_domains()
     if k == "real-port":
         return check_real_port(*task[1:])
     if k == "canary-real-port":
